@@ -80,7 +80,7 @@ def probes(ck, runner):
 
 def cte_view_cases(ck, rng, runner, tier):
     """A CTE / view is interchangeable with its defining query; every reference sees the same rows."""
-    n = 25 if tier == "quick" else 600
+    n = 80 if tier == "quick" else 600
     for d in range(n):
         db = tables(rng)
         g = qgen.Gen(rng, db, {"join", "agg", "distinct", "union", "case"})
@@ -126,7 +126,7 @@ def body(ck, tier, runner):
     probes(ck, runner)
     rng = Rng(ck.seed * 6007 + 9)
     sd = SemDiff(ck, runner, "correlated")
-    ncase = 120 if tier == "quick" else 4000
+    ncase = 400 if tier == "quick" else 4000
     kinds = {}
     for d in range(ncase):
         db = tables(rng)
